@@ -16,6 +16,23 @@ Definition delims_ok (T : tables) : bool :=
   delims_ok1 (t_query_map T) (t_query_delims T) [38; 59; 61; 43; 35] &&
   delims_ok1 (t_frag_map T) (t_frag_delims T) [].
 
+(* ---- diagnosis for the harness: which table entries break tables_ok / delims_ok -----------------------
+   (component 0 userinfo, 1 path, 2 query, 3 fragment; character) - evaluated by the check's search()
+   after a broken obligation, to build inputs that carry the offending character in that component *)
+Definition bad_bytes (ok : N -> bool) (m : list text) : list N :=
+  filter (fun b => negb (entry_ok ok m b)) (range 256).
+Definition bad_delims (m : list text) (ds splitters : list N) : list N :=
+  filter (fun d => negb ((d <? 128) && is_escape_of d (map_get m d))) ds ++ filter (fun c => negb (memN c ds)) splitters.
+Definition table_diagnosis (T : tables) : list (N * N) :=
+  map (pair 0) (bad_bytes (ok_at PUser) (t_user_map T)) ++ map (pair 1) (bad_bytes (ok_at PPath) (t_path_map T)) ++
+  map (pair 2) (bad_bytes (ok_at PQuery) (t_query_map T)) ++ map (pair 3) (bad_bytes (ok_at PFrag) (t_frag_map T)) ++
+  map (pair 1) (bad_delims (t_path_map T) (t_path_delims T) [47; 63; 35]) ++
+  map (pair 2) (bad_delims (t_query_map T) (t_query_delims T) [38; 59; 61; 43; 35]) ++
+  map (pair 3) (bad_delims (t_frag_map T) (t_frag_delims T) []) ++
+  (* escapes that the hex table decodes differently from two hex digits: reported as component 4 *)
+  map (pair 4) (flat_map (fun a => flat_map (fun b => if opt_eqb (hex_lookup (t_hex T) a b) (hexval2 a b) then [] else [a * 256 + b])
+                                             hexdigits) hexdigits).
+
 (* ---- runs of a text that starts with ASCII characters ------------------------------------------- *)
 Lemma runs_prepend_ascii a : forall q,
   a <> [] -> forallb is_ascii a = true ->
